@@ -23,7 +23,7 @@ import tomllib
 
 from .common import VERIF, COMPILER_SRC, Undecided, run, vx_index, find_fn, log
 
-UNIT_DIR = os.path.join(VERIF, "contracts", "verus")
+UNIT_DIR = os.environ.get("VERIF_UNIT_DIR") or os.path.join(VERIF, "contracts", "verus")  # the override is for the developer loop only (bin/vdev)
 
 DEFINITE = [
     (re.compile(r"postcondition not satisfied"), "postcondition"),
@@ -85,7 +85,8 @@ def load_units():
                 # (only for `&mut self` functions: decided when the signature is read)
                 f["_frame"] = list(imp.get("frame", []))
                 f.pop("loop", None)
-                f.pop("subst", None)
+                # body rewrites are irrelevant for an imported contract, signature rewrites (R31 token
+                # types) still apply: external mode applies only those whose fragment occurs in the signature
                 f.pop("proof", None)
                 f.pop("no_termination", None)
                 if imp.get("container"):
@@ -208,6 +209,10 @@ def assemble_fn(unit, spec, idx, raw, counts):
         contract += "        decreases " + subst(defs, spec["fn_decreases"]) + ",\n"
     if mode == "external":
         sig = apply_edits(raw, (f["sig_start"], f["body_open"]), [e for e in edits if e[0] >= f["sig_start"]])
+        for sub in spec.get("subst", []):
+            if not sub.get("regex") and "from" in sub and sub["from"] in sig:
+                sig = sig.replace(sub["from"], sub["to"])
+                counts["subst(sig):" + sub.get("why", sub["from"])] = counts.get("subst(sig):" + sub.get("why", sub["from"]), 0) + 1
         text = "    #[verifier::external_body]\n    " + sig.rstrip() + contract + "    { unimplemented!() }\n"
         return f, text, []
     if contract:
